@@ -5,7 +5,7 @@
      adjustUpdateLowResolutionTSIntervalWithRequestedStaleness and the two branches of the updateTS loop.
    Durations are ns (Z).  The float expression  Duration(dt.Seconds() * float64(20ms))  is modelled exactly
    as dt/50 (the correspondence driver uses dt values for which the float computation is exact). *)
-From Verif Require Export Oracle.Model.
+From Verif Require Export Oracle.Model Oracle.ModelSys.
 Open Scope Z_scope.
 
 (* ---------- GetStaleTimestamp ---------- *)
@@ -103,3 +103,26 @@ Definition istep (s : ist) (o : iop) : ist :=
   | OSet nw => match set_interval s nw with Some s' => s' | None => s end
   | OAdjust read cur now => fst (adjust s read cur now)
   end.
+
+(* ---------- lastTSO.arrival, one setLastTS call at a time: record (tso, arrival) ----------
+   current.arrival = time.Now() (the reading `now`); publish only if newer; the arrival never goes back *)
+Definition set_last_arr (c : option (Z * Z)) (ts now : Z) : option (Z * Z) :=
+  match c with
+  | None => Some (ts, now)
+  | Some (l, a) => if ts <=? l then c else Some (ts, Z.max now a)
+  end.
+
+(* ---------- the oracle as a whole: the GetTimestamp / setLastTS system next to the interval record ----------
+   SetLowResolutionTimestampUpdateInterval, nextUpdateInterval and the staleness adjustment only touch the
+   interval record; they decide WHEN the updateTS goroutine issues its GetTimestamp calls, i.e. the schedule. *)
+Inductive pevent := PSys (e : event) | PInt (o : iop).
+Definition pstep (pd : nat -> Z) (s : sys * ist) (e : pevent) : sys * ist :=
+  match e with
+  | PSys e => (step pd (fst s) e, snd s)
+  | PInt o => (fst s, istep (snd s) o)
+  end.
+Definition prun (pd : nat -> Z) (s : sys * ist) (es : list pevent) : sys * ist := fold_left (pstep pd) es s.
+Definition sys_events (es : list pevent) : list event :=
+  flat_map (fun e => match e with PSys e => [e] | PInt _ => [] end) es.
+Definition int_ops (es : list pevent) : list iop :=
+  flat_map (fun e => match e with PSys _ => [] | PInt o => [o] end) es.
